@@ -168,9 +168,10 @@ CLAIMED["C06"] = dict(
     "the mirror of functionBlocks (Lemmas/IRMirror.lean: insert_keeps_cache_in_step, delete_keeps_cache_in_step, "
     "apply_keeps_cache_in_step), hence after apply()'s whole loop no block is listed by two functions "
     "(no_block_is_in_two_functions_after_apply) and entries are still a subset of blocks "
-    "(entries_are_blocks_after_apply, Lemmas/IREntries.lean); the premises (fresh patch block ids, cache mirrors "
+    "(entries_are_blocks_after_apply, Lemmas/IREntries.lean); code inserted into a block of function F belongs "
+    "to F when insert() returns (inserted_code_belongs_to_the_function); the premises (fresh patch block ids, cache mirrors "
     "table, entries are blocks) are evaluated on the recorded states." + EMOD_TIE +
-    " Partial: entry promotion on deletion and which function inserted code belongs to are decided by oracle and "
+    " Partial: entry promotion on deletion, and that data never belongs to a function, are decided by oracle and "
     "correspondence.",
     technique=EMOD_TECH,
     design="DESIGN.md#c06",
